@@ -58,10 +58,13 @@ type c14Case struct {
 	// Arena: the messages are handed over as adjacent sub-slices of one buffer (a feeder that encodes into an arena),
 	// so each handed slice has spare capacity that belongs to the next message; otherwise as private copies
 	Arena bool `json:"arena,omitempty"`
+	// LongRun > len(Msgs): the payload list is repeated cyclically up to this many messages at run time (a connection
+	// that carries more than 2^16 messages without megabytes of case)
+	LongRun int `json:"long_run,omitempty"`
 }
 
 const c14Rule = "case = raw-socket producer configuration (tcp | udp, retry-max 0..4) + 1..300 messages (1 octet..48 KiB, in a quarter of the tcp cases some extended to exactly 255..131073 octets on and next to the 8-, 12-, 16- and 17-bit marks; JSON-like text rich in %d %s %% %! verbs, quotes, UTF-8 and arbitrary non-newline octets, each tagged with its index; in a quarter of the cases handed over as adjacent sub-slices of one buffer instead of private copies: the producer must not touch memory beyond the message, and the buffer must be unchanged afterwards) " +
-	"+ fault plan (tcp): none, or 1..3 breaks (after message i the sink closes gracefully | resets the connection, optionally stops listening for a drawn downtime; with two or more breaks the feeder is paced so that later breaks still find traffic), or a flap plan (8..40 closes / resets with the listener up while 1500..4000 messages flow back to back), or an outage plan (2..4 outages on one producer, each costing a drawn 2..140 messages of a paced feeder, delivered traffic in between), or a stall plan (the sink stops reading while 30..60 messages of 48 KiB follow, so that a write blocks half-way, then resets), or a slow-sink plan (the sink stops reading for 0.3..5.5 s (thorough: ..31 s) and then goes on, while 1200..2500 messages keep the producer's queue full: the no-fault oracle applies); with a fault plan the producer may have been up and idle for 0.4..5.5 s (thorough: ..31 s) before traffic starts; the real producer.NewProducer(\"rawSocket\").Run() writes to a sink owned by the harness; " +
+	"+ fault plan (tcp): none, or 1..3 breaks (after message i the sink closes gracefully | resets the connection, optionally stops listening for a drawn downtime; with two or more breaks the feeder is paced so that later breaks still find traffic), or a long-run plan (65 600..72 000 short messages on one connection, in half of the cases with a sink that stops reading for 0.3 / 1.2 s 40..400 messages before the 2^16 mark and then goes on: the no-fault oracle applies), or a flap plan (8..40 closes / resets with the listener up while 1500..4000 messages flow back to back), or an outage plan (2..4 outages on one producer, each costing a drawn 2..140 messages of a paced feeder, delivered traffic in between), or a stall plan (the sink stops reading while 30..60 messages of 48 KiB follow, so that a write blocks half-way, then resets), or a slow-sink plan (the sink stops reading for 0.3..5.5 s (thorough: ..31 s) and then goes on, while 1200..2500 messages keep the producer's queue full: the no-fault oracle applies); with a fault plan the producer may have been up and idle for 0.4..5.5 s (thorough: ..31 s) before traffic starts; the real producer.NewProducer(\"rawSocket\").Run() writes to a sink owned by the harness; " +
 	"oracle without fault = the sink's byte stream is exactly concat(message + newline) (udp: one datagram per message, paced; in a third of the udp cases the sink's socket is closed for 5..150 ms and bound again to the same port: delivery must resume within retry-max+4 messages handed over one at a time, every datagram that arrives is exactly its message); with faults (every break index is a fault point) = the complete lines received over all connections are " +
 	"byte-identical input messages with strictly increasing indices (no duplicate, no corruption, no reordering), and once the sink is reachable again probe messages handed over one at a time resume delivery within retry-max+4 probes with nothing missing afterwards; " +
 	"non-trivial = a message contains '%' or is >= 4 KiB, or the plan has a break; distinct by hash"
@@ -168,6 +171,20 @@ func genC14Plan(t *rapid.T) c14Case {
 			for len(c.Msgs) < 2500 {
 				c.Msgs = append(c.Msgs, []byte("slow-sink-filler-0123456789"))
 			}
+		}
+		return c
+	}
+	if c.Protocol == "tcp" && rapid.IntRange(0, 15).Draw(t, "longplan") == 0 {
+		// a long-lived connection: more than 2^16 short messages on one connection, in half of the cases with a sink
+		// that stops reading for a moment shortly before the 2^16 mark and then goes on (the no-fault oracle applies:
+		// everything arrives exactly once and in order)
+		c.Msgs = nil
+		for i, n := 0, rapid.IntRange(3, 12).Draw(t, "nlongsnips"); i < n; i++ {
+			c.Msgs = append(c.Msgs, []byte(rapid.SampledFrom(c14Snippets).Draw(t, "longsnip")+"long"))
+		}
+		c.LongRun = rapid.IntRange(65600, 72000).Draw(t, "longrun")
+		if rapid.Bool().Draw(t, "longslow") {
+			c.Breaks = []c14Break{{After: 65536 - rapid.IntRange(40, 400).Draw(t, "longbefore"), Kind: "slow", StallMS: rapid.SampledFrom([]int{300, 1200}).Draw(t, "longslowms")}}
 		}
 		return c
 	}
@@ -541,8 +558,19 @@ func runC14(c *c14Case) (v verdict, sig string, err error) {
 		}
 	}
 
-	wireMsgs := make([][]byte, len(c.Msgs))
-	for i, m := range c.Msgs {
+	payloads := c.Msgs
+	if c.LongRun > len(c.Msgs) {
+		if c.LongRun > 1<<20 {
+			return v, "", fmt.Errorf("bad case: long run")
+		}
+		payloads = make([]wire.Hex, c.LongRun)
+		for i := range payloads {
+			payloads[i] = c.Msgs[i%len(c.Msgs)]
+		}
+		v.label(true, "connection-carries>65536-messages")
+	}
+	wireMsgs := make([][]byte, len(payloads))
+	for i, m := range payloads {
 		if c.PadTo > len(m) && c.PadTo <= 65536 {
 			pm := make([]byte, c.PadTo)
 			copy(pm, m)
